@@ -26,7 +26,7 @@ import numpy as np
 ID = "C14"
 LEVEL = "exploration"
 RULE = ("w4/shift cases = one multiset of corner letters (all distinct orders, all Fermi letters, der 0-3, both branches "
-        "inside); non-trivial = the multiset has coincident / near-coincident (<1e-6) corners or max|e| >= 30 x smallest "
+        "inside); non-trivial = the multiset has coincident / near-coincident (<1e-6) corners or max|e| >= 100 x smallest "
         "gap; groups: non-trivial = some k-point has a band group that is completed (fully below/above) or a group of "
         ">=2 bands; paral: non-trivial = the 8 corners are not all equal; run: non-trivial = (system, grid)")
 ASSUMPTIONS = [
@@ -51,6 +51,7 @@ P_LETTERS = [0.0, 1.0, 2.5]
 P_CENTRES = [0.75, 1.0]
 RES = Fr(4, 10 ** 12)      # 4e-12
 DIFF_MIN = Fr(1, 10 ** 12)  # the library's documented resolution
+COND = 100.0                # max|e| / smallest denominator from which an expansion around E=0 can lose >= 1e-10
 
 
 def setup(tier, seed):
@@ -129,7 +130,8 @@ def der_scale(cs, der):
 def conditioning(cs, ef):
     """max|energy| / smallest denominator of the cubic piece that contains ef (corners spread by the documented
     rule): the amplification of rounding errors when that piece is expanded around E=0.  0 outside [e1,e4)."""
-    e1, e2, e3, e4 = [float(x) for x in spread_rule(cs)]
+    e1, e2, e3, e4 = spread_rule(cs)
+    ef = Fr(ef)
     if ef < e1 or ef >= e4:
         return 0.0
     if ef >= e3:
@@ -138,13 +140,13 @@ def conditioning(cs, ef):
         den = (e3 - e1, e4 - e1, e3 - e2, e4 - e2)
     else:
         den = (e2 - e1, e3 - e1, e4 - e1)
-    return max(abs(e1), abs(e4), abs(ef)) / min(den)
+    return float(max(abs(e1), abs(e4), abs(ef)) / min(den))
 
 
 def ill_conditioned(cs):
-    e = [float(x) for x in spread_rule(cs)]
+    e = spread_rule(cs)
     g = min(b - a for a, b in zip(e[:-1], e[1:]))
-    return max(abs(e[0]), abs(e[-1])) / g >= 30
+    return float(max(abs(e[0]), abs(e[-1])) / g) >= COND
 
 
 def check_corner_set(cs, eps, width):
@@ -178,7 +180,7 @@ def check_corner_set(cs, eps, width):
 
     def fail(key, txt, ief=None):
         if ief is not None and key.endswith(":value") and "polynomial" in key:
-            if conditioning(cs, efs[ief]) >= 30:
+            if conditioning(cs, efs[ief]) >= COND:
                 key = key[:-len(":value")] + ":cancellation"
         return {"ok": False, "key": key, "detail": txt}
 
@@ -287,6 +289,7 @@ def bracket_vec(cs, efs_key, efs):
 
 EF_WIDE = [-1.63 + 0.29 * i for i in range(16)]     # -1.63 .. 2.72, never on a ladder value
 EF_NARROW = [0.87 + 0.11 * i for i in range(5)]     # 0.87 .. 1.31: bands fully below and fully above exist
+EF_NARROW2 = [0.93 + 0.13 * i for i in range(5)]    # same length as EF_NARROW, other values (cache keyed by identity)
 EF_ONE = [1.27]
 
 
@@ -296,7 +299,7 @@ def run_groups(case):
     nb = 3
     nontriv = []
     nev = 0
-    efsets = {"wide": EF_WIDE, "narrow": EF_NARROW, "one": EF_ONE}
+    efsets = {"wide": EF_WIDE, "narrow": EF_NARROW, "narrow2": EF_NARROW2, "one": EF_ONE}
     for c1, c2, c3 in itertools.product(range(case["nlad"]), repeat=3):
         lad = [LADDERS[case["c0"]], LADDERS[c1], LADDERS[c2], LADDERS[c3]]
         eCenter = np.array([cen], dtype=float)                     # (1, nb)
@@ -304,7 +307,7 @@ def run_groups(case):
         tw = TetraWeights(eCenter=eCenter.copy(), eCorners=eCorners.copy())
         arrays = {k: np.array(v) for k, v in efsets.items()}
         # the order of calls exercises the lazy cache keyed by (Fermi array identity, der, ik, ib)
-        for efname, der, thr in [(n, d, t) for t in (-1, 0.6) for n in ("wide", "narrow", "one")
+        for efname, der, thr in [(n, d, t) for t in (-1, 0.6) for n in ("wide", "narrow", "narrow2", "one")
                                  for d in (0, 1, -1, 2, 3, 0)]:
             efs = efsets[efname]
             got = tw.weights_all_band_groups(arrays[efname], der=der, degen_thresh=thr)
